@@ -37,7 +37,7 @@ def bash_n(script):
         fh.write(script)
         p = fh.name
     try:
-        r = subprocess.run(["/bin/bash", "-n", p], stdout=subprocess.PIPE, stderr=subprocess.PIPE, timeout=20)
+        r = subprocess.run(["/bin/bash", "-n", p], stdout=subprocess.PIPE, stderr=subprocess.PIPE, timeout=90)
         return r.returncode, r.stderr.decode("utf-8", "replace")
     finally:
         os.unlink(p)
